@@ -22,15 +22,21 @@ def outOf : Driver → List Act
 
 theorem rawSend_wf (d : Driver) (c : Cmd) (out : List Act) (ho : out = [Act.rel] ∨ out = outOf d) :
     wfSeg false loopHead (rawSend d c out) = some loopHead := by
-  obtain ⟨⟨bits, data, twice, dt⟩, query⟩ := c
-  rcases ho with rfl | rfl <;> cases d <;> cases twice <;> cases query <;>
-    simp_all [rawSend, tridonicRaw, hassebRaw, serialSendBody, serialCommand, outOf]
+  unfold rawSend
+  split
+  · rcases ho with rfl | rfl <;> cases d <;> simp [outOf]
+  · obtain ⟨⟨bits, data, twice, dt⟩, query⟩ := c
+    rcases ho with rfl | rfl <;> cases d <;> cases twice <;> cases query <;>
+      simp_all [tridonicRaw, hassebRaw, serialSendBody, serialCommand, outOf]
 
 theorem rawSend_wf_retry (d : Driver) (hd : d = .tridonic ∨ d = .hasseb) (c : Cmd) :
     wfSeg true loopHead (rawSend d c [Act.rel]) = some loopHead := by
-  obtain ⟨⟨bits, data, twice, dt⟩, query⟩ := c
-  rcases hd with rfl | rfl <;> cases twice <;> cases query <;>
-    simp_all [rawSend, tridonicRaw, hassebRaw]
+  unfold rawSend
+  split
+  · simp
+  · obtain ⟨⟨bits, data, twice, dt⟩, query⟩ := c
+    rcases hd with rfl | rfl <;> cases twice <;> cases query <;>
+      simp_all [tridonicRaw, hassebRaw]
 
 theorem serialCommand_wf (d : Driver) (f : WFrame) :
     wfSeg false loopHead (serialCommand d f [Act.rel]) = some loopHead := by
@@ -46,19 +52,22 @@ theorem serialSendBody_wf (d : Driver) (c : Cmd) :
 theorem rawSend_edt (d : Driver) (c : Cmd) (out : List Act) (prev : Option WFrame)
     (h : c.frame.dt = 0 ∨ prev = some (edtFrame c.frame.dt)) :
     ∃ x, edtSeg prev (rawSend d c out) = some x := by
-  obtain ⟨⟨bits, data, twice, dt⟩, query⟩ := c
-  simp only at h
-  rcases h with h | h
-  · subst h
-    cases d <;> cases twice <;> cases query <;>
-      simp [rawSend, tridonicRaw, hassebRaw, serialSendBody, serialCommand]
-  · subst h
-    cases d <;> cases twice <;> cases query <;>
-      simp [rawSend, tridonicRaw, hassebRaw, serialSendBody, serialCommand]
+  unfold rawSend
+  split
+  · exact ⟨prev, by simp⟩
+  · obtain ⟨⟨bits, data, twice, dt⟩, query⟩ := c
+    simp only at h
+    rcases h with h | h
+    · subst h
+      cases d <;> cases twice <;> cases query <;>
+        simp [tridonicRaw, hassebRaw, serialSendBody, serialCommand]
+    · subst h
+      cases d <;> cases twice <;> cases query <;>
+        simp [tridonicRaw, hassebRaw, serialSendBody, serialCommand]
 
 theorem rawSend_edt_last (d : Driver) (dt : Nat) (out : List Act) (prev : Option WFrame) :
     edtSeg prev (rawSend d (edtCmd dt) out) = some (some (edtFrame dt)) := by
-  cases d <;> simp [rawSend, tridonicRaw, hassebRaw, serialSendBody, serialCommand, edtCmd]
+  cases d <;> simp [rawSend, Driver.carries, tridonicRaw, hassebRaw, serialSendBody, serialCommand, edtCmd]
 
 theorem serialCommand_edt (d : Driver) (dt : Nat) (out : List Act) (prev : Option WFrame) :
     edtSeg prev (serialCommand d (edtFrame dt) out) = some (some (edtFrame dt)) := by
